@@ -10,8 +10,8 @@ Mutual structural induction over `BNode` / `BNodes` / `BFields` (`sv_node`, `sv_
 holds in front of a node (the streaming reader parses an rgb block into one token, the on-demand path
 keeps the marker and reads the block when the token is consumed); `opt` layers by `deTok_opt`; skipping by
 balancedness (`skip_node`); ghost objects by `nextKey_field`; fuel bound `lexemes(node) + size(type) ≤ fuel`.
-Side conditions beyond `fitsRoot`: no leaf is the lexeme 0x0243 written as a token id (`plainF`), and no
-`u16` target (`noU16Root`: on a token id the sequential `deserialize_u16` shortcut differs from the tape).
+Side condition beyond `fitsRoot`: no leaf is the lexeme 0x0243 written as a token id (`plainF`).  (A `u16` target
+on a token id: all three paths hand over the raw id since /repo 4ab9b0c; the former `noU16Root` hypothesis is gone.)
 -/
 set_option linter.unusedSimpArgs false
 namespace Jomini.BinDe
@@ -62,37 +62,6 @@ theorem wrapRes2_map (k : Nat) (X : Res String) (rest : List Tok) :
   cases X <;> simp [wrapRes2, wrapRes, Except.map]
 
 /-! ### side conditions -/
-
-mutual
-/-- the request never uses a `u16` target (on a token id the sequential paths' `deserialize_u16`
-shortcut hands over the raw id, the tape and the reference ask the resolver). -/
-def noU16 : Ty → Bool
-  | .u16 => false
-  | .opt t => noU16 t | .seq t => noU16 t | .map t => noU16 t | .prop t => noU16 t
-  | .struct fs => noU16F fs
-  | _ => true
-def noU16F : Fields → Bool
-  | .nil => true
-  | .cons _ _ t rest => noU16 t && noU16F rest
-end
-
-theorem noU16_get : ∀ (fs : Fields) (i : Nat) (n : String) (k : Nat) (t : Ty),
-    noU16F fs = true → fs.get? i = some (n, k, t) → noU16 t = true
-  | .nil, _, _, _, _, _, h => by simp [Fields.get?] at h
-  | .cons _ _ t' r, 0, n, k, t, hn, h => by
-    simp [Fields.get?] at h; obtain ⟨_, _, rfl⟩ := h
-    simp [noU16F] at hn; exact hn.1
-  | .cons _ _ t' r, i + 1, n, k, t, hn, h => by
-    simp [Fields.get?] at h
-    simp [noU16F] at hn
-    exact noU16_get r i n k t hn.2 h
-
-theorem noU16_core (t : Ty) (h : noU16 t = true) : noU16 (stripOpt t).2 = true := by
-  cases t with
-  | opt i => simp only [stripOpt]; exact noU16_core i (by simpa [noU16] using h)
-  | _ => first | exact h | simpa [stripOpt] using h
-termination_by tySize t
-decreasing_by all_goals (subst_vars; simp [tySize])
 
 mutual
 /-- no leaf is the reserved lexeme 0x0243 written as a token id (`is_id` is false for it). -/
@@ -266,22 +235,22 @@ theorem nextKey_eof (p : Path) (f : Nat) : nextKey p true (f + 1) [] = .ok (none
 
 /-! ### leaves and colours, every request that is not an `opt` -/
 
-theorem seq_leaf_all (p : Path) (c : Cfg) (f : Nat) (core : Ty) (hno : NotOpt core) (hu : noU16 core = true)
+theorem seq_leaf_all (p : Path) (c : Cfg) (f : Nat) (core : Ty) (hno : NotOpt core)
     (l : BLeaf) (hl : plainTok l.tok = true) (rest : List Tok) :
     deTok p c (f + 1) core l.tok rest = (valCoreG (binSem c) (.leaf l) core).map (fun v => (v, rest)) := by
   have hn := fun ty => normTok_plain p ty l.tok rest hl
   have hskip : skipTok p l.tok rest = .ok rest := by
     have := skip_value p (.leaf l) (by simpa [plainN] using hl) rest
     simpa [valueTok] using this
-  cases core <;> simp [NotOpt] at hno <;> simp [noU16] at hu <;>
+  cases core <;> simp [NotOpt] at hno <;>
     (cases l with
      | id n =>
        simp only [BLeaf.tok] at hn hskip
-       simp only [deTok, hn, hskip, hinted, deser, leafOf, valCoreG, binSem, valLeaf, leafPrim, BLeaf.tok, Event.ofRes, Except.map, enumVal]
+       simp only [deTok, hn, hskip, hinted, deser, leafOf, valCoreG, binSem, valLeaf, u16Leaf, leafPrim, BLeaf.tok, Event.ofRes, Except.map, enumVal]
        try (cases idPrim c n <;> simp [Except.map, leafOf] <;> (try (split <;> simp_all [Except.map])))
      | _ =>
        simp only [BLeaf.tok] at hn hskip
-       simp [deTok, hn, hskip, hinted, deser, leafOf, valCoreG, binSem, valLeaf, leafPrim, BLeaf.tok, Event.ofRes, Except.map, enumVal] <;>
+       simp [deTok, hn, hskip, hinted, deser, leafOf, valCoreG, binSem, valLeaf, u16Leaf, leafPrim, BLeaf.tok, Event.ofRes, Except.map, enumVal] <;>
        (try (split <;> simp_all [Except.map])))
 
 theorem stream_rgb_all (c : Cfg) (f : Nat) (core : Ty) (hno : NotOpt core) (col : Rgb) (rest : List Tok) :
@@ -317,15 +286,15 @@ theorem valueTok_ne_close (p : Path) (n : BNode) (rest : List Tok) : (valueTok p
   | arr vs => simp [valueTok]
 
 theorem lift_ty_seq (p : Path) (c : Cfg) (n : BNode) (rest : List Tok)
-    (hcore : ∀ core f, NotOpt core → noU16 core = true → fitsN c n core = true → (tokensNode n).length + tySize core ≤ f →
+    (hcore : ∀ core f, NotOpt core → fitsN c n core = true → (tokensNode n).length + tySize core ≤ f →
       deTok p c f core (valueTok p n rest).1 (valueTok p n rest).2 = (valCoreG (binSem c) n core).map (fun v => (v, rest)))
-    (ty : Ty) (f : Nat) (hu : noU16 ty = true) (hf : fitsN c n ty = true) (hb : (tokensNode n).length + tySize ty ≤ f) :
+    (ty : Ty) (f : Nat) (hf : fitsN c n ty = true) (hb : (tokensNode n).length + tySize ty ≤ f) :
     deTok p c f ty (valueTok p n rest).1 (valueTok p n rest).2 = (nodeVia (valCoreG (binSem c) n) ty).map (fun v => (v, rest)) := by
   obtain ⟨hno, hsz⟩ := stripOpt_core ty
   have hk : f = (f - (stripOpt ty).1) + (stripOpt ty).1 := by omega
   rw [hk, deTok_opt]
   unfold nodeVia
-  rw [hcore _ _ hno (noU16_core ty hu) (by rw [← fitsN_core]; exact hf) (by omega), wrapRes2_map]
+  rw [hcore _ _ hno (by rw [← fitsN_core]; exact hf) (by omega), wrapRes2_map]
 
 theorem deMap_none (p : Path) (c : Cfg) (g : Nat) (vt : Ty) (root : Bool) (toks r : List Tok) (acc : List String)
     (hk : nextKey p root (g + 1) toks = .ok (none, r)) : deMap p c (g + 1) vt root toks acc = .ok (acc, r) := by
@@ -421,10 +390,10 @@ theorem ghost_len (g : Nat) : (ghostToks g).length = 2 * g := by
 
 mutual
 theorem sv_node (c : Cfg) (n : BNode) : ∀ (p : Path) (rest : List Tok) (core : Ty) (f : Nat),
-    NotOpt core → noU16 core = true → plainN n = true → fitsN c n core = true →
+    NotOpt core → plainN n = true → fitsN c n core = true →
     (tokensNode n).length + tySize core ≤ f →
     deTok p c f core (valueTok p n rest).1 (valueTok p n rest).2 = (valCoreG (binSem c) n core).map (fun v => (v, rest)) := by
-  intro p rest core f hno hu hpl hfit hb
+  intro p rest core f hno hpl hfit hb
   have hs := tySize_pos core
   obtain ⟨g, rfl⟩ : ∃ g, f = g + 1 := ⟨f - 1, by omega⟩
   have hign : core = .ign → deTok p c (g + 1) .ign (valueTok p n rest).1 (valueTok p n rest).2 = .ok ("ign", rest) := by
@@ -445,7 +414,7 @@ theorem sv_node (c : Cfg) (n : BNode) : ∀ (p : Path) (rest : List Tok) (core :
   cases n with
   | leaf l =>
     simp only [plainN] at hpl
-    exact seq_leaf_all p c g core hno hu l hpl rest
+    exact seq_leaf_all p c g core hno l hpl rest
   | rgb col =>
     cases p with
     | ondemand => exact ondemand_rgb_all c g core hno col rest
@@ -455,19 +424,19 @@ theorem sv_node (c : Cfg) (n : BNode) : ∀ (p : Path) (rest : List Tok) (core :
     have hlen : (tokensNode (.arr vs)).length = (tokensNodes vs).length + 2 := by simp [tokensNode]
     have hnt : ∀ ty l, normTok p ty .open l = .ok (.open, l) :=
       fun ty l => normTok_plain p ty .open l (by simp [plainTok])
-    have hel := fun et acc hu' hf hb' => sv_elems c vs p rest et g acc hu' hpl hf hb'
+    have hel := fun et acc hf hb' => sv_elems c vs p rest et g acc hpl hf hb'
     cases core with
     | opt i => simp [NotOpt] at hno
     | ign => simpa [valCoreG, Except.map] using hign rfl
     | seq et =>
       simp only [fitsN, stripOpt] at hfit
       simp only [valueTok, deTok, hnt, valCoreG]
-      rw [hel et [] (by simpa [noU16] using hu) hfit (by simp [tySize] at hb; omega)]
+      rw [hel et [] hfit (by simp [tySize] at hb; omega)]
       cases valNodesG (binSem c) vs et [] <;> rfl
     | any =>
       simp only [fitsN, stripOpt] at hfit
       simp only [valueTok, deTok, hnt, valCoreG, deser]
-      rw [hel .any [] (by simp [noU16]) hfit (by simp [tySize] at hb ⊢; omega)]
+      rw [hel .any [] hfit (by simp [tySize] at hb ⊢; omega)]
       cases valNodesG (binSem c) vs .any [] <;> rfl
     | map vt =>
       simp only [fitsN, stripOpt] at hfit
@@ -498,8 +467,8 @@ theorem sv_node (c : Cfg) (n : BNode) : ∀ (p : Path) (rest : List Tok) (core :
     have hnt : ∀ ty l, normTok p ty .open l = .ok (.open, l) :=
       fun ty l => normTok_plain p ty .open l (by simp [plainTok])
     have hends : Ends false (.close :: rest) rest := Or.inl rfl
-    have hmap := fun vt acc hu' hf hb' => sv_map c fs p false (.close :: rest) rest vt g acc hends hu' hpl hf hb'
-    have hst := fun decl slots hu' hf hb' => sv_struct c fs p false (.close :: rest) rest decl g slots hends hu' hpl hf hb'
+    have hmap := fun vt acc hf hb' => sv_map c fs p false (.close :: rest) rest vt g acc hends hpl hf hb'
+    have hst := fun decl slots hf hb' => sv_struct c fs p false (.close :: rest) rest decl g slots hends hpl hf hb'
     cases core with
     | opt i => simp [NotOpt] at hno
     | ign => simpa [valCoreG, Except.map] using hign rfl
@@ -508,18 +477,18 @@ theorem sv_node (c : Cfg) (n : BNode) : ∀ (p : Path) (rest : List Tok) (core :
     | map vt =>
       simp only [fitsN, stripOpt] at hfit
       simp only [valueTok, deTok, hnt, valCoreG]
-      rw [hmap vt [] (by simpa [noU16] using hu) hfit (by simp [tySize] at hb; omega)]
+      rw [hmap vt [] hfit (by simp [tySize] at hb; omega)]
       cases valMapG (binSem c) fs vt [] <;> rfl
     | struct decl =>
       simp only [fitsN, stripOpt] at hfit
       simp only [valueTok, deTok, hnt, valCoreG]
-      exact hst decl (slotsInit decl) (by simpa [noU16] using hu) hfit (by simp [tySize] at hb; omega)
+      exact hst decl (slotsInit decl) hfit (by simp [tySize] at hb; omega)
     | prop t => simp [valueTok, deTok, hnt, valCoreG, Except.map]
     | _ => simp [valueTok, deTok, hnt, valCoreG, Except.map, hinted, deser, leafOf]
 theorem sv_elems (c : Cfg) (vs : BNodes) : ∀ (p : Path) (rest : List Tok) (et : Ty) (f : Nat) (acc : List String),
-    noU16 et = true → plainS vs = true → fitsNs c vs et = true → (tokensNodes vs).length + 1 + tySize et ≤ f →
+    plainS vs = true → fitsNs c vs et = true → (tokensNodes vs).length + 1 + tySize et ≤ f →
     deElems p c f et (tokensNodes vs ++ .close :: rest) acc = (valNodesG (binSem c) vs et acc).map (fun v => (v, rest)) := by
-  intro p rest et f acc hu hpl hfit hb
+  intro p rest et f acc hpl hfit hb
   obtain ⟨g, rfl⟩ : ∃ g, f = g + 1 := ⟨f - 1, by omega⟩
   cases vs with
   | nil => simp [tokensNodes, deElems_end, valNodesG, Except.map]
@@ -535,7 +504,7 @@ theorem sv_elems (c : Cfg) (vs : BNodes) : ∀ (p : Path) (rest : List Tok) (et 
     have hfr := fetchRead_node p v hpl.1 (tokensNodes rs ++ .close :: rest)
     have hne := valueTok_ne_close p v (tokensNodes rs ++ .close :: rest)
     have hv := lift_ty_seq p c v (tokensNodes rs ++ .close :: rest)
-      (fun core f' hno hu' hfc hbc => sv_node c v p _ core f' hno hu' hpl.1 hfc hbc) et g hu hfv.1 (by omega)
+      (fun core f' hno hfc hbc => sv_node c v p _ core f' hno hpl.1 hfc hbc) et g hfv.1 (by omega)
     generalize valueTok p v (tokensNodes rs ++ .close :: rest) = vtk at hfr hne hv
     obtain ⟨t, tl⟩ := vtk
     simp only at hne hv
@@ -545,12 +514,12 @@ theorem sv_elems (c : Cfg) (vs : BNodes) : ∀ (p : Path) (rest : List Tok) (et 
     | error e => rfl
     | ok x =>
       simp only [Except.map]
-      exact sv_elems c rs p rest et g (acc ++ [x]) hu hpl.2 hfv.2 (by omega)
+      exact sv_elems c rs p rest et g (acc ++ [x]) hpl.2 hfv.2 (by omega)
 theorem sv_map (c : Cfg) (fs : BFields) : ∀ (p : Path) (root : Bool) (tail rest : List Tok) (vt : Ty) (f : Nat) (acc : List String),
-    Ends root tail rest → noU16 vt = true → plainF fs = true → fitsMapF c fs vt = true →
+    Ends root tail rest → plainF fs = true → fitsMapF c fs vt = true →
     (tokensFields fs).length + 1 + tySize vt ≤ f →
     deMap p c f vt root (tokensFields fs ++ tail) acc = (valMapG (binSem c) fs vt acc).map (fun v => (v, rest)) := by
-  intro p root tail rest vt f acc hends hu hpl hfit hb
+  intro p root tail rest vt f acc hends hpl hfit hb
   obtain ⟨g, rfl⟩ : ∃ g, f = g + 1 := ⟨f - 1, by omega⟩
   cases fs with
   | nil => simp [tokensFields, deMap_none _ _ _ _ _ _ _ _ (nextKey_ends p root tail rest hends g), valMapG, Except.map]
@@ -574,7 +543,7 @@ theorem sv_map (c : Cfg) (fs : BFields) : ∀ (p : Path) (root : Bool) (tail res
     | ok ks =>
       have hnv := nextValue_node p v hpl.1.2 (tokensFields rs ++ tail)
       have hv := lift_ty_seq p c v (tokensFields rs ++ tail)
-        (fun core f' hno hu' hfc hbc => sv_node c v p _ core f' hno hu' hpl.1.2 hfc hbc) vt (g' + 1) hu hfit.1 (by omega)
+        (fun core f' hno hfc hbc => sv_node c v p _ core f' hno hpl.1.2 hfc hbc) vt (g' + 1) hfit.1 (by omega)
       generalize valueTok p v (tokensFields rs ++ tail) = vtk at hnv hv
       obtain ⟨t, tl⟩ := vtk
       simp only at hv
@@ -583,14 +552,14 @@ theorem sv_map (c : Cfg) (fs : BFields) : ∀ (p : Path) (root : Bool) (tail res
       | error e => rfl
       | ok x =>
         simp only [Except.map]
-        exact sv_map c rs p root tail rest vt (g' + 1) _ hends hu hpl.2 hfit.2 (by omega)
+        exact sv_map c rs p root tail rest vt (g' + 1) _ hends hpl.2 hfit.2 (by omega)
 theorem sv_struct (c : Cfg) (fs : BFields) : ∀ (p : Path) (root : Bool) (tail rest : List Tok) (decl : Fields) (f : Nat)
     (slots : List (Option String)),
-    Ends root tail rest → noU16F decl = true → plainF fs = true → fitsStructF c fs decl = true →
+    Ends root tail rest → plainF fs = true → fitsStructF c fs decl = true →
     (tokensFields fs).length + 1 + tySize.fieldsSize decl ≤ f →
     deStruct p c f decl false root (tokensFields fs ++ tail) slots =
       (valStructG (binSem c) fs decl false slots).map (fun v => (v, rest)) := by
-  intro p root tail rest decl f slots hends hu hpl hfit hb
+  intro p root tail rest decl f slots hends hpl hfit hb
   obtain ⟨g, rfl⟩ : ∃ g, f = g + 1 := ⟨f - 1, by omega⟩
   cases fs with
   | nil =>
@@ -610,10 +579,10 @@ theorem sv_struct (c : Cfg) (fs : BFields) : ∀ (p : Path) (root : Bool) (tail 
     rw [htl, deStruct_some p c g decl false root _ _ _ _ _ slots hk hn, seqFieldKey_which c decl k hpl.1.1,
       valStructG_cons_false]
     have hnv := nextValue_node p v hpl.1.2 (tokensFields rs ++ tail)
-    have hvv := fun ty (hu' : noU16 ty = true) (hf : fitsN c v ty = true) (hb' : (tokensNode v).length + tySize ty ≤ g) =>
+    have hvv := fun ty (hf : fitsN c v ty = true) (hb' : (tokensNode v).length + tySize ty ≤ g) =>
       lift_ty_seq p c v (tokensFields rs ++ tail)
-        (fun core f' hno hu'' hfc hbc => sv_node c v p _ core f' hno hu'' hpl.1.2 hfc hbc) ty g hu' hf hb'
-    have hrest := fun sl => sv_struct c rs p root tail rest decl g sl hends hu hpl.2 hfit.2 (by omega)
+        (fun core f' hno hfc hbc => sv_node c v p _ core f' hno hpl.1.2 hfc hbc) ty g hf hb'
+    have hrest := fun sl => sv_struct c rs p root tail rest decl g sl hends hpl.2 hfit.2 (by omega)
     have hfit1 : ∀ i name tk fty, whichOf (binSem c) decl k = .ok (some i) → decl.get? i = some (name, tk, fty) →
         fitsN c v fty = true := by
       intro i name tk fty h1 h2
@@ -631,7 +600,7 @@ theorem sv_struct (c : Cfg) (fs : BFields) : ∀ (p : Path) (root : Bool) (tail 
       cases w with
       | none =>
         simp only [seqStructStep, structStepSpec, hnv]
-        rw [hvv .ign (by simp [noU16]) (by cases v <;> simp [fitsN, stripOpt]) (by simp [tySize]; omega)]
+        rw [hvv .ign (by cases v <;> simp [fitsN, stripOpt]) (by simp [tySize]; omega)]
         have : nodeVia (valCoreG (binSem c) v) .ign = .ok "ign" := by
           cases v <;> simp [nodeVia, stripOpt, valCoreG, wrapRes, wrapSome]
         simp only [this, Except.map]
@@ -652,7 +621,7 @@ theorem sv_struct (c : Cfg) (fs : BFields) : ∀ (p : Path) (root : Bool) (tail 
               have hsz := (get?_size decl i name tk fty hfb).1
               have hfv := hfit1 i name tk fty hw hfb
               simp only [hnv]
-              rw [hvv fty (noU16_get decl i name tk fty hu hfb) hfv (by omega)]
+              rw [hvv fty hfv (by omega)]
               cases hx : nodeVia (valCoreG (binSem c) v) fty with
               | error e => rfl
               | ok x =>
@@ -660,16 +629,12 @@ theorem sv_struct (c : Cfg) (fs : BFields) : ∀ (p : Path) (root : Bool) (tail 
                 exact hrest _
 end
 
-def noU16Root : RootTy → Bool
-  | .plain t => noU16 t
-  | .tok fs => noU16F fs
-
 /-- (C04_eq_spec, both SEQUENTIAL paths, NESTED documents) for every binary document whose leaves are
 not the reserved lexeme 0x0243 (`plainF`; the byte-level `wf` gives it), every root request that fits it
-(`fitsRoot`) and uses no `u16` target (`noU16Root`), every resolver and strategy: the on-demand and
+(`fitsRoot`), every resolver and strategy: the on-demand and
 the streaming deserializer model on the document's raw lexemes return the reference value. -/
 theorem C04_eq_spec_seq (p : Path) (c : Cfg) (ty : RootTy) (d : BDoc) (hpl : plainF d = true)
-    (hfit : fitsRoot c ty d = true) (hu : noU16Root ty = true) :
+    (hfit : fitsRoot c ty d = true) :
     deSeqRoot p c ty (tokensOf d) = valueOfBin c ty d := by
   have hends : Ends true [] [] := Or.inr ⟨rfl, rfl, rfl⟩
   have hto : tokensOf d = tokensFields d ++ [] := by simp [tokensOf]
@@ -680,19 +645,17 @@ theorem C04_eq_spec_seq (p : Path) (c : Cfg) (ty : RootTy) (d : BDoc) (hpl : pla
     cases t with
     | map vt =>
       simp only [fitsRoot] at hfit
-      simp only [noU16Root, noU16] at hu
       dsimp only
-      have := sv_map c d p true [] [] vt (2 * (tokensOf d).length + rootSize (.plain (.map vt)) + 8) [] hends hu hpl hfit
+      have := sv_map c d p true [] [] vt (2 * (tokensOf d).length + rootSize (.plain (.map vt)) + 8) [] hends hpl hfit
         (by simp [tokensOf, rootSize, tySize]; omega)
       rw [← hto] at this
       rw [this]
       cases valMapG (binSem c) d vt [] <;> rfl
     | struct decl =>
       simp only [fitsRoot] at hfit
-      simp only [noU16Root, noU16] at hu
       dsimp only
       have := sv_struct c d p true [] [] decl (2 * (tokensOf d).length + rootSize (.plain (.struct decl)) + 8) (slotsInit decl)
-        hends hu hpl hfit (by simp [tokensOf, rootSize, tySize]; omega)
+        hends hpl hfit (by simp [tokensOf, rootSize, tySize]; omega)
       rw [← hto] at this
       rw [this]
       cases valStructG (binSem c) d decl false (slotsInit decl) <;> rfl
@@ -700,13 +663,13 @@ theorem C04_eq_spec_seq (p : Path) (c : Cfg) (ty : RootTy) (d : BDoc) (hpl : pla
 
 /-- (C04, all three paths = reference, NESTED documents) -/
 theorem C04_tape_eq_ondemand (c : Cfg) (ty : RootTy) (d : BDoc) (hpl : plainF d = true)
-    (hfit : fitsRoot c ty d = true) (hu : noU16Root ty = true) :
+    (hfit : fitsRoot c ty d = true) :
     deTape c ty (tapeFields d 0) = deOndemand c ty (tokensOf d) ∧
     deTape c ty (tapeFields d 0) = deStream c ty (tokensOf d) ∧
     deTape c ty (tapeFields d 0) = valueOfBin c ty d := by
   have h1 := C04_eq_spec_tape c ty d hfit
-  have h2 := C04_eq_spec_seq .ondemand c ty d hpl hfit hu
-  have h3 := C04_eq_spec_seq .stream c ty d hpl hfit hu
+  have h2 := C04_eq_spec_seq .ondemand c ty d hpl hfit
+  have h3 := C04_eq_spec_seq .stream c ty d hpl hfit
   exact ⟨by rw [h1]; exact h2.symm, by rw [h1]; exact h3.symm, h1⟩
 
 end Jomini.BinDe
